@@ -360,6 +360,12 @@ func (s *grpcServer) Write(srv bytestream.ByteStream_WriteServer) error {
 	var resp bytestream.WriteResponse
 	pr, pw := io.Pipe()
 
+	// Once this handler returns nobody reads from the pipe any more (for
+	// example when the cache rejected invalid compressed data early). Close
+	// the read side, so that the goroutine below can't remain blocked in
+	// pw.Write forever.
+	defer func() { _ = pr.Close() }()
+
 	putResult := make(chan error, 1)
 	recvResult := make(chan error, 1)
 	resourceNameChan := make(chan string, 1)
